@@ -170,6 +170,10 @@ func (c *Ctx) Violate(signature, what string, witness any) {
 		}
 	}
 	c.counters["violations:"+signature]++
+	if len(c.samples) == 0 {
+		// the violating case is an actual case of this run: keep it as a sample if none was recorded yet
+		c.samples = append(c.samples, map[string]any{"violating_case": signature, "witness": witness})
+	}
 	if n < 40 {
 		c.violations = append(c.violations, v)
 	}
